@@ -26,14 +26,7 @@ func (e EmptySet) IsTrue() bool {
 }
 
 func (e EmptySet) Less(v Value) bool {
-	if e == v {
-		return false
-	}
-	switch v.(type) {
-	case Number, Tuple:
-		return false
-	}
-	return true
+	return e.Kind() < v.Kind()
 }
 
 func (e EmptySet) Negate() Value {
